@@ -470,6 +470,31 @@ Qed.
 
 (** ** A thief alone on a non-empty quiescent queue gets the oldest item *)
 
+Lemma titer_S k m pc P R : titer (S k) m pc P R =
+  match thief_tick m pc with
+  | Some (ws, pc', g) => titer k (apply_wrs m ws) pc' (ghost_pushed g P) (ghost_returned g R)
+  | None => titer k m pc P R
+  end.
+Proof. reflexivity. Qed.
+
+Lemma titer_take m P R : lck m = 0 -> base m < top m ->
+  titer 7 m TQuick P R =
+  (apply_wrs m [WLock 1; WBase (base m + 1); WLock 0], TDone (znth (ptr m) (base m)),
+   P, R ++ [znth (ptr m) (base m)]).
+Proof.
+  destruct m as [t0 b0 l0 p0 s0 c0]. cbn [top base lck ptr]. intros -> H.
+  assert (E1 : (t0 - b0 <=? 0) = false) by (apply Z.leb_gt; lia).
+  assert (E2 : (b0 <? t0) = true) by (apply Z.ltb_lt; lia).
+  rewrite titer_S. cbn [thief_tick top base]. rewrite E1.
+  rewrite titer_S. cbn [thief_tick lck apply_wrs fold_left apply_wr top base ptr wseq wptr Z.eqb ghost_pushed ghost_returned].
+  rewrite titer_S. cbn [thief_tick lck apply_wrs fold_left apply_wr top base ptr wseq wptr ghost_pushed ghost_returned].
+  rewrite titer_S. cbn [thief_tick lck apply_wrs fold_left apply_wr top base ptr wseq wptr ghost_pushed ghost_returned].
+  rewrite titer_S. cbn [thief_tick lck apply_wrs fold_left apply_wr top base ptr wseq wptr ghost_pushed ghost_returned]. rewrite E2.
+  rewrite titer_S. cbn [thief_tick lck apply_wrs fold_left apply_wr top base ptr wseq wptr ghost_pushed ghost_returned].
+  rewrite titer_S. cbn [thief_tick lck apply_wrs fold_left apply_wr top base ptr wseq wptr ghost_pushed ghost_returned].
+  reflexivity.
+Qed.
+
 Theorem solo_take s i :
   reachable init step s -> quiescent s -> aborted s = false ->
   nth_error (thv s) i = Some TIdle -> base (mm s) < top (mm s) ->
@@ -491,9 +516,7 @@ Proof.
   assert (Et : titer 7 (mm s1) TQuick (pushed s1) (returned s1) =
                (apply_wrs (mm s) [WLock 1; WBase (base (mm s) + 1); WLock 0], TDone x,
                 pushed s, returned s ++ [x])).
-  { unfold s1, x. cbn [mm pushed returned]. destruct (mm s) as [t0 b0 l0 p0 s0 c0]. cbn in *. subst l0.
-    replace (t0 - b0 <=? 0) with false by (symmetry; apply Z.leb_gt; lia).
-    cbn. replace (b0 <? t0) with true by (symmetry; apply Z.ltb_lt; lia). reflexivity. }
+  { unfold s1, x. cbn [mm pushed returned]. apply titer_take; auto. }
   destruct (run_solo_ticks i 7 s1 _ eq_refl Hi1 _ _ _ _ Et) as (I1 & I2 & I3 & I4 & I5 & I6 & I7 & I8).
   assert (Hx : In x (pushed s)).
   { eapply Permutation_in; [apply Permutation_sym; exact N5|].
